@@ -729,3 +729,18 @@ def r17_8(run):
 
 
 RULES.append(("R17.8", r17_8))
+
+EXPLANATION += (' ' + '(R17.9, shared with C05 R5.8) the restructuring tools may leave a result table in another row order than its element table (relabelled, '
+                'subset taken in the order asked for); the next pipeflow is unaffected because init_results_element rebinds every result table to a fresh '
+                'frame with the index of the element table on every path, never re-uses the old one.')
+
+
+def r17_9(run):
+    """physics after restructuring: result extraction writes by position in element-table order, so the result table of the next run
+    must carry the element table's index in the element table's order -- guaranteed by rebinding it from net[element].index on every
+    path (shared with C05 R5.8); a kept table whose labels merely form the same set puts results under the wrong labels."""
+    from .c05 import r5_8
+    r5_8(run)
+
+
+RULES.append(("R17.9", r17_9))
